@@ -186,7 +186,21 @@ def run(ctx, rep):
                     if zero:
                         cut += [(sw, x) for x in BR.succ(sw) if x != zero[0]]
             assigns = [bi for bi, blk in enumerate(BR.blocks) for s_ in blk["s"] if s_[0] == "=" and s_[1] == [0] and s_[2][0] == "use" and op_local(s_[2][1]) in aliases]
-            reach = BR.reachable_from(t["to"], cut_edges=cut) if t.get("to") is not None else set()
+            # path-sensitive (a `matches!(result, Ok(0))` parked in a bool local is followed): at the switches above only the
+            # edge that stays consistent with `Ok(0)` is taken
+            import pathsens
+            cut_by_sw = {}
+            for (sw_, x_) in cut:
+                cut_by_sw.setdefault(sw_, set()).add(x_)
+
+            def forced0(b_, sw_):
+                if sw_ in cut_by_sw:
+                    keep = [x for x in b_.succ(sw_) if x not in cut_by_sw[sw_]]
+                    return keep[0] if len(keep) == 1 else None
+                return None
+            reach = set(pathsens.reachable_under(BR, forced0, start_bb=t["to"])) if t.get("to") is not None else set()
+            if any(len([x for x in BR.succ(sw_) if x not in xs_]) != 1 for sw_, xs_ in cut_by_sw.items()):
+                reach = BR.reachable_from(t["to"], cut_edges=cut) if t.get("to") is not None else set()
             okz = not any(a in reach for a in assigns)
         rep.check("C20.d", f"no-early-eof/{i}", okz, where=where(BR, bb),
                   what="a zero-length read of the current chunk is never returned while further chunks remain (empty chunks are skipped)" if okz else
